@@ -296,3 +296,19 @@ def playback(obl, log):
                      "playback_tail": out[-3000:],
                      "note": "replayed natively (rustc) against the text extracted from /repo; the shim stands in for the rest of the interpreter"})
     return info
+
+
+def warm(log):
+    """compile every family crate once (one cheap harness each)"""
+    fams = _families()
+    obls = registry()
+    with Lock("e3"):
+        for fam, cfg in fams.items():
+            mine = [o for o in obls if o.crate == fam and o.expect == "fail"][:1] or [o for o in obls if o.crate == fam][:1]
+            if not mine:
+                continue
+            dst, report, errors, sources = prepare(fam, cfg)
+            cmd = ["cargo", "kani", "--target-dir", os.path.join(E3DIR, "target-" + fam), "-Z", "unstable-options", "--exact",
+                   "--harness", mine[0].harness, "--harness-timeout", "300s", "--output-format", "terse"]
+            rc, out, dt = run(cmd, cwd=dst, timeout=1500)
+            log(f"[warm] e3 {fam}: rc={rc} {dt:.0f}s")
